@@ -300,7 +300,7 @@ def run_group(unit, udir, work, builder, g, tier):
     res = {'group': g['name'], 'unit': unit['name'], 'harness': g['harness'], 'props': g.get('props', unit.get('properties', [])),
            'functions': g.get('functions', []), 'enforce': g.get('enforce', []), 'replace': g.get('replace', []),
            'backend': g.get('backend', 'sat-minisat'), 'bounded': g.get('bounded'), 'unwind': None,
-           'obligations': [], 'status': 'undecided', 'why': '', 'solver_s': 0.0, 'cmds': []}
+           'obligations': [], 'status': 'undecided', 'why': '', 'solver_s': 0.0, 'cmds': [], 'ignore_rule': g.get('ignore_checks', '')}
     t0 = time.time()
     try:
         defines = list(unit.get('defines', [])) + list(g.get('defines', []))
@@ -316,6 +316,7 @@ def run_group(unit, udir, work, builder, g, tier):
         if rc != 0:
             raise Drift('link failed: ' + (err + out)[-800:])
         inst = os.path.join(work, tag + '.i.gb')
+        use_dfcc = g.get('dfcc', True)
         cmd = ['goto-instrument', '--dfcc', g['harness']]
         for e in g.get('enforce', []):
             cmd += ['--enforce-contract', e]
@@ -327,15 +328,18 @@ def run_group(unit, udir, work, builder, g, tier):
             cmd += ['--apply-loop-contracts']
         cmd += g.get('instrument_flags', [])
         cmd += [linked, inst]
-        rc, out, err, dt = sh(cmd, timeout=600)
-        res['cmds'].append(' '.join(cmd))
-        if rc != 0:
-            raise Drift('goto-instrument failed: ' + trim_err(err + out)[-1200:])
+        if use_dfcc:
+            rc, out, err, dt = sh(cmd, timeout=600)
+            res['cmds'].append(' '.join(cmd))
+            if rc != 0:
+                raise Drift('goto-instrument failed: ' + trim_err(err + out)[-1200:])
+        else:
+            inst = linked       # ghost-state assertion harness: no contract to enforce or replace, cbmc runs on the linked binary
         unwind = g.get('unwind')
         if isinstance(unwind, dict):
             unwind = unwind.get(tier, unwind.get('quick'))
         res['unwind'] = unwind
-        cmd = ['cbmc', inst, '--json-ui', '--trace', '--arch', 'x86_64']
+        cmd = ['cbmc', inst, '--json-ui', '--trace', '--arch', 'x86_64', '--drop-unused-functions', '--object-bits', str(g.get('object_bits', 10))]
         # cbmc 6 enables bounds/pointer/div-by-zero/signed-overflow/undefined-shift/pointer-primitive checks by default
         cmd += g.get('checks', [])
         if unwind:
@@ -382,7 +386,14 @@ def run_group(unit, udir, work, builder, g, tier):
             desc = r.get('description', '')
             ob = {'id': r['property'], 'desc': desc[:200], 'status': r['status']}
             is_reach = REACH in desc
-            if is_reach:
+            if is_reach and not r['property'].startswith(g['harness'] + '.'):
+                continue        # another harness's guard (unreachable from this entry point)
+            ign = g.get('ignore_checks')
+            if ign and re.search(ign, '%s %s' % (r['property'], desc)):
+                ob['kind'] = 'ignored-check'
+                res.setdefault('ignored', 0)
+                res['ignored'] += 1
+            elif is_reach:
                 reach_seen += 1
                 ob['kind'] = 'vacuity-guard(must fail)'
                 if r['status'] != 'FAILURE':
@@ -600,7 +611,8 @@ def check(prop, tier, seed=0):
                               'enforced': r['enforce'], 'callee_contracts_assumed_at_call_sites': r['replace'], 'backend': r['backend'],
                               'solver_s': r['solver_s'], 'unwind': r['unwind'],
                               'loop_closure': ('BOUNDED(%s)' % r['bounded']) if r.get('bounded') else ('width-complete unwinding' if r['unwind'] else 'loop-free or loop contracts'),
-                              'obligations': len(obs), 'discharged': sum(1 for o in obs if o['status'] == 'SUCCESS'), 'why': r['why']})
+                              'obligations': len(obs), 'discharged': sum(1 for o in obs if o['status'] == 'SUCCESS'), 'why': r['why'],
+                              'ignored_checks': r.get('ignored', 0), 'ignored_checks_rule': r.get('ignore_rule', '')})
             if r['status'] == 'undecided':
                 undecided.append('%s/%s: %s' % (r['unit'], r['group'], r['why']))
             elif r['status'] == 'fail':
@@ -688,8 +700,9 @@ def write_evidence(prop, tier, seed, runs, groups_ev, n_obl, n_dis, samples, bou
         'wall_s': round(wall, 2),
         'violations': nviol,
     }
-    os.makedirs(os.path.join(VERIF, 'evidence'), exist_ok=True)
-    json.dump(ev, open(os.path.join(VERIF, 'evidence', prop + '.json'), 'w'), indent=1)
+    evdir = os.environ.get('VX_EVIDENCE_DIR', os.path.join(VERIF, 'evidence'))     # seeded-mutant runs write elsewhere
+    os.makedirs(evdir, exist_ok=True)
+    json.dump(ev, open(os.path.join(evdir, prop + '.json'), 'w'), indent=1)
 
 
 def load_meta():
@@ -819,7 +832,7 @@ def main(argv):
             seen_why.add(r['why'])
             print('== %s: %s %s (%.1fs)' % (r['group'], r['status'], r['why'], r['solver_s']))
             for o in r['obligations']:
-                if (o['status'] == 'FAILURE' and o['kind'] != 'vacuity-guard(must fail)') or os.environ.get('VX_VERBOSE'):
+                if (o['status'] == 'FAILURE' and o['kind'] not in ('vacuity-guard(must fail)', 'ignored-check')) or os.environ.get('VX_VERBOSE'):
                     print('   %-8s %s  %s' % (o['status'], o['id'], o['desc'][:110]))
             for ob in r.get('failed', [])[:int(os.environ.get('VX_SHOW', '1'))]:
                 print('   inputs:', ob.get('inputs'))
